@@ -45,6 +45,15 @@ theorem noneOpen_of_inv {s : State} (hb : InvB s) (hd : InvD s) : NoneOpenAfterC
     have o := (hb.ins i hi).owned hal
     exact absurd o.2.1 (hm _ o.1)
 
+theorem removeSameOnlyTarget_of_inv {s : State} (ha : InvA s) (hb : InvB s) : RemoveSameOnlyTarget s := by
+  intro t ht id tgt r i hop hpc
+  have v := (hb.thr t ht).same_target id tgt r hop (by rw [hpc]; rfl)
+  have a := (ha.thr t ht).2
+  rw [hpc] at a
+  simp only at a
+  rw [a.2.2.2] at v
+  exact Option.some.inj v
+
 theorem removedNotReturned_of_invC {s : State} (h : InvC s) : RemovedNotReturned s :=
   fun t ht i => ⟨(h.thr t ht).ret_val i, fun l => (h.thr t ht).ret_objs l i⟩
 
